@@ -641,6 +641,9 @@ func randomOpts(rng *rand.Rand, thorough bool, dynamic bool) genOpts {
 	o.txKinds = rng.Intn(3) == 0
 	o.txRate = 2 + rng.Intn(4)
 	o.idle = rng.Intn(3) == 0
+	// an honest clock that runs an hour fast and is corrected half-way (derived from the step count so
+	// that the other choices of a seed stay what they were): later medians below earlier timestamps
+	o.skew = o.steps%3 == 0
 	if o.n0 >= 4 && rng.Intn(2) == 0 {
 		nb := (o.n0 - 1) / 3
 		for len(o.byz) < nb {
